@@ -21,7 +21,16 @@ Records are stored under their ID (the key); the redundant ID field of the Go st
 record (ObjectID() = key by construction in dao.go). Each handler is split into named sub-steps (resolve script /
 validate / store the definition / move the association / restart / apply the status change) in the code's order, so
 that every sub-step has its own lemma in Kap/Proofs/C14*.lean.
-Abstracted: task type (all pool scripts are stream tasks), the Error / Created / Modified / LastEnabled fields,
+Task type: the stored `Type` of a task / template is not a separate field of the model's records, it is DERIVED from
+the stored script (`taskIsBatch`): handleCreateTask / handleUpdateTask / handleCreateTemplate overwrite it with
+taskTypeFromProgram(script) before they validate and store; handleUpdateTemplate keeps the stored Type and validates
+the new script against it (templateTask(updated): a script of the other type does not build => 400, modelled in
+`updateTemplate`), and updateAllAssociatedTasks copies the template's Type. So "stored Type = type of the stored
+script" is an invariant of the code; the correspondence checks it on every listing (type column of tasks AND templates).
+Batch tasks: startTask calls et.StartBatching() after TaskMaster.StartTask succeeded; it fails (checkDBRPs) when a
+query of the script reads a db.rp that is not among the task's dbrps (`batchable`); the task is then stopped again
+(`start-batching-refused`: in TaskMaster.tasks for a moment, two saveLastError transactions, 500).
+Abstracted: the Error / Created / Modified / LastEnabled fields,
 snapshots (their transactions are counted, their content is not modelled), ID syntax check (IDs are well formed),
 storage faults (a transaction commits; crash points are modelled instead; Kap/Model/C14Fault.lean adds them).
 A task that dies at run time is the pseudo-request `Op.die` (`dieTask`).
@@ -50,8 +59,10 @@ structure ScriptInfo where
   parse : Bool            -- newProgramNodeFromTickscript succeeds
   typed : Bool            -- taskTypeFromProgram names a task type
   pdbrps : List String    -- dbrpsFromProgram
-  tmplOk : Bool           -- TaskMaster.NewTemplate builds it
-  valid : String → Bool   -- TaskMaster.NewTask builds it with these vars
+  tmplOk : Bool           -- TaskMaster.NewTemplate builds it (with the script's own type)
+  valid : String → Bool   -- TaskMaster.NewTask builds it with these vars (with the script's own type)
+  batch : Bool := false           -- taskTypeFromProgram = batch (meaningful when `typed`)
+  qdbrps : List String := []      -- BatchNode.DBRPs(): the db.rp the batch queries of the script read
 
 abbrev Env := String → ScriptInfo
 
@@ -147,15 +158,33 @@ def buildable (env : Env) (t : Task) : Bool := (env t.script).valid t.vars
 /-- TaskMaster.StartTask succeeds (given that the task builds): it has dbrps and the oracle does not refuse it. -/
 def startable (fail : List String) (id : String) (t : Task) : Bool := !t.dbrps.isEmpty && !fail.contains id
 
-/-- The oracle outcome of a start attempt of task `id` = `t` during a request with refusals `fail`. -/
-def startOK (env : Env) (fail : List String) (id : String) (t : Task) : Bool := buildable env t && startable fail id t
+/-- The stored Type of a task (derived, see the header). -/
+def taskIsBatch (env : Env) (t : Task) : Bool := (env t.script).batch
 
-/-- startTask. -/
+/-- ExecutingTask.StartBatching succeeds: not a batch task (not called), or checkDBRPs passes — every db.rp a query of
+the script reads is among the task's dbrps. -/
+def batchable (env : Env) (t : Task) : Bool :=
+  !taskIsBatch env t || (env t.script).qdbrps.all (fun q => t.dbrps.contains q)
+
+/-- The oracle outcome of a start attempt of task `id` = `t` during a request with refusals `fail`:
+the task builds, TaskMaster.StartTask accepts it AND (batch tasks) StartBatching succeeds. -/
+def startOK (env : Env) (fail : List String) (id : String) (t : Task) : Bool :=
+  buildable env t && startable fail id t && batchable env t
+
+/-- The third outcome of a start attempt: TaskMaster.StartTask succeeded, StartBatching was refused. -/
+def batchRefused (env : Env) (fail : List String) (id : String) (t : Task) : Bool :=
+  buildable env t && startable fail id t && !batchable env t
+
+/-- startTask: three-way outcome — ok / start refused (unbuildable or TaskMaster.StartTask) / batching refused. -/
 def startTask (env : Env) (fail : List String) (w : World) (id : String) (t : Task) : World × Bool :=
   if !buildable env t then (w.note "start-unbuildable", false)
   else if !startable fail id t then
     ((saveLastError (saveLastError w id) id).note "start-refused", false)   -- clear the error, record the new one
-  else (((saveLastError w id).setExec id true).note "start-ok", true)       -- "Starting task, remove last error"
+  else if !batchable env t then
+    -- StartTask succeeded (the task is in TaskMaster.tasks), StartBatching failed: record the error, stop it again
+    (((saveLastError ((saveLastError w id).setExec id true) id).setExec id false).note "start-batching-refused", false)
+  else (((saveLastError w id).setExec id true).note
+          (if taskIsBatch env t then "start-ok-batch" else "start-ok"), true)   -- "Starting task, remove last error"
 
 /-! ### Requests -/
 
@@ -395,12 +424,17 @@ def storeTemplate (w : World) (id newId script : String) : World × Bool :=
     else ((tmplCreate w newId script).1.note "trename-onto-existing", false)
   else tmplReplace w id script
 
+/-- templateTask(updated) in handleUpdateTemplate: the new script must build as a template of the STORED type (the
+type of the stored script `os`): it builds with its own type and that type is the stored one. -/
+def tmplAccepts (env : Env) (os ns : String) : Bool := (env ns).tmplOk && ((env ns).batch == (env os).batch)
+
 /-- handleUpdateTemplate. -/
 def updateTemplate (env : Env) (fail : List String) (w : World) (id newId script : String) : World × Resp :=
   match w.store.tmpls id with
   | none => (w.note "tupdate-missing", .nf)
   | some os =>
-    if !(env (if script ≠ "" then script else os)).tmplOk then (w.note "tupdate-invalid", .bad)
+    -- templateTask(updated) with the STORED type: a script that does not build, or one of the other type
+    if !tmplAccepts env os (if script ≠ "" then script else os) then (w.note "tupdate-invalid", .bad)
     else if !(storeTemplate w id (if newId ≠ "" then newId else id) (if script ≠ "" then script else os)).2 then
       ((storeTemplate w id (if newId ≠ "" then newId else id) (if script ≠ "" then script else os)).1, .fail)
     -- the two parses at the top of updateAllAssociatedTasks (an error runs the deferred rollback with i = 0)
